@@ -195,6 +195,7 @@ def run(ctx):
     ctx.tick("probe")
     fails, labels, info = tlc.validate_execs("T_Session.tla", "T_Session.cfg", traces, ctx.workdir, "c20", chunks=10)
     ctx.add_validation(info, len(traces))
+    sc.note_labels(ctx, labels)
     for (s, p, ig), t in zip(jobs, traces):
         ctx.case([s, p, ig], nontrivial=len(s) > 1)
     seen = set()
